@@ -186,7 +186,10 @@ def _frag_dfg():
     d = Dfg(tys.Bool)
     n = d.add(Not(d.inputs()[0]), metadata={"frag": 1})
     d.add_state_order(d.input_node, n)
-    d.set_outputs(n, n)
+    with d.add_nested() as inner:
+        x = inner.add(Not(n))  # non-local wire: needs the order edge n -> inner DFG
+        inner.set_outputs(x)
+    d.set_outputs(n, *inner)
     return d
 
 
@@ -272,6 +275,39 @@ def start(sc: Scenario) -> Ctx:
     elif sc.root == "module":
         m = Module()
         ctx.root, ctx.hugr = m, m.hugr
+    elif sc.root == "cfg":
+        from hugr.build.cfg import Cfg
+
+        cb = Cfg(*[T.build_type(t) for t in sc.row])
+        ctx.root, ctx.hugr = cb, cb.hugr
+        cfg = {"b": cb, "n_blocks": 1, "exit_row": None, "entry_in": list(sc.row), "pending": [], "entry_wires": None, "holder_depth": 0, "is_root": True}
+        ctx.cfgs.append(cfg)
+        holder = Frame(ctx.next_uid, "cfgholder", cb, info={"cfg": cfg}, barrier=True)
+        ctx.next_uid += 1
+        ctx.frames.append(holder)
+        ctx.push("block", cb.add_entry(), list(sc.row), cfg=cfg, is_entry=True)
+    elif sc.root == "cond":
+        from hugr.build.cond_loop import Conditional
+
+        rows = sc.extra["sum_rows"]
+        other = list(sc.row)
+        cb = Conditional(T.build_type(["Sum", rows]), [T.build_type(t) for t in other])
+        ctx.root, ctx.hugr = cb, cb.hugr
+        ctx.push("case", cb.add_case(0), [*rows[0], *other], cond=cb, case_idx=0, rows=rows, other=other, want=None, style="cond", root_cond=True)
+    elif sc.root == "loop":
+        from hugr.build.cond_loop import TailLoop
+
+        ji, rest = sc.extra["ji"], list(sc.row)
+        lb = TailLoop([T.build_type(t) for t in ji], [T.build_type(t) for t in rest])
+        ctx.root, ctx.hugr = lb, lb.hugr
+        ctx.push("loop", lb, [*ji, *rest], ji=ji, rest=rest, jo_options=sc.extra.get("jo_options", [[], [B]]), is_root=True)
+    elif sc.root == "func":
+        from hugr.build.dfg import Function
+
+        f = Function("main", [T.build_type(t) for t in sc.row])
+        ctx.root, ctx.hugr = f, f.hugr
+        ctx.funcs.append({"name": "main", "node": f.parent_node, "in": list(sc.row), "out": None, "b": f, "open": True, "params": [], "insts": []})
+        ctx.push("func", f, list(sc.row), barrier=True, want=None, fidx=0)
     else:
         raise AssertionError(sc.root)
     return ctx
@@ -400,9 +436,13 @@ def enabled(ctx: Ctx) -> list:
                         if name == "Noop" or ctx.wires[tr[i]].ty == B:
                             calls.append(["iop", name, [i]])
                 elif name == "DivMod":
-                    for i, j in itertools.product(live, repeat=2):
-                        if ctx.wires[tr[i]].ty == I and ctx.wires[tr[j]].ty == I:
-                            calls.append(["iop", name, [i, j]])
+                    ints = [i for i in live if ctx.wires[tr[i]].ty == I]
+                    for i, j in itertools.product(ints, repeat=2):
+                        calls.append(["iop", name, [i, j]])
+                    for w in ctx.visible():
+                        if w.ty == I and w.frame_uid == top.uid:
+                            for i in ints:
+                                calls.append(["iop", name, [["w", w.id], i]])  # a wire before an index
             for i in live:
                 calls.append(["untrack", i])
             for w in ctx.visible():
@@ -743,16 +783,17 @@ def apply(ctx: Ctx, call) -> None:
     elif kind == "iop":
         name, idxs = call[1], call[2]
         tr = top.info["tracked"]
-        ws = [ctx.wires[tr[i]] for i in idxs]
+        ws = [ctx.wires[a[1]] if isinstance(a, list) else ctx.wires[tr[a]] for a in idxs]
         res = op_result(name, [w.ty for w in ws])
         if res is None:
             raise WellFormednessBug(call)
-        n = b.add(build_op(name)(*idxs))
+        n = b.add(build_op(name)(*[ctx.wires[a[1]].h if isinstance(a, list) else a for a in idxs]))
         _consume(ctx, ws)
         top.nodes.append(n)
         new = [ctx.new_wire(t, n.out(i), n) for i, t in enumerate(res)]
         for p, i in enumerate(idxs):
-            tr[i] = new[p].id
+            if not isinstance(i, list):
+                tr[i] = new[p].id
         ctx.features.add("tracked-command")
     elif kind == "untrack":
         b.untrack_wire(call[1])
@@ -820,6 +861,8 @@ def _retire(ctx: Ctx, frame: Frame):
 def _pop_to_parent(ctx: Ctx, node, out_types, label):
     """The innermost frame is closed; its container node yields `out_types` in the parent frame."""
     _retire(ctx, ctx.frames.pop())
+    if ctx.frames and ctx.frames[-1].kind == "cfgholder" and ctx.frames[-1].info["cfg"].get("is_root") and node is ctx.frames[-1].b.parent_node:
+        ctx.frames.pop()
     if ctx.frames:
         for i, t in enumerate(out_types):
             ctx.new_wire(t, node.out(i), node)
@@ -934,8 +977,8 @@ def _close_block(ctx: Ctx, call):
     # no block left open: the CFG is complete
     holder = ctx.frames[-1]
     assert holder.kind == "cfgholder"
-    ctx.handles.append(("add_cfg builder", cb, len(cfg["exit_row"])))
-    _pop_to_parent(ctx, cb.parent_node, cfg["exit_row"], "add_cfg.parent_node")
+    ctx.handles.append(("add_cfg builder" if not cfg.get("is_root") else "Cfg builder", cb, len(cfg["exit_row"])))
+    _pop_to_parent(ctx, cb.parent_node, cfg["exit_row"], "add_cfg.parent_node" if not cfg.get("is_root") else None)
 
 
 def complete(ctx: Ctx) -> bool:
